@@ -147,6 +147,8 @@ def main(args):
                     missed += 1
                 elif tag == "MISSED":
                     tag = "ok-quiet"
+                else:
+                    missed += 1   # patch-failed / stale-mutant: the control did not run at all
             elif tag not in ("detected",):
                 missed += 1
             print(f"{tag:9s} {r['prop']} {r['name']} by={r.get('by')} wall={r.get('wall')}s {r.get('detail', '')} {r.get('note', '')}", flush=True)
@@ -154,5 +156,5 @@ def main(args):
                 print("          " + json.dumps({k: v for k, v in r.get("results", {}).items()})[:600])
             out.append({k: v for k, v in r.items() if k not in ("old", "new", "extra")})
     json.dump(out, open(os.path.join(VERIF, "mutants", "last_sensitivity.json"), "w"), indent=1)
-    print(f"sensitivity: {len(ms) - missed}/{len(ms)} detected")
+    print(f"sensitivity: {len(ms) - missed}/{len(ms)} as expected (detected, or quiet for controls)")
     return 1 if missed else 0
